@@ -33,6 +33,8 @@ func RunPlan(cli, root string, solo *SoloCache, p *Plan) *Outcome {
 	bad := map[string]string{}
 	note := func(e *Entry) {
 		switch {
+		case e.Perm != "":
+			bad[e.Name] = "perm:" + e.Perm
 		case e.Kind == KGo && e.Break != "":
 			bad[e.Name] = "break:" + e.Break
 		case e.Kind == KGo && e.Shape != "":
